@@ -78,7 +78,17 @@ impl MessageBody for Payload {
     }
 }
 
+#[derive(Debug)]
+struct EndFailure(String);
+impl std::fmt::Display for EndFailure {
+    fn fmt(&self, f: &mut std::fmt::Formatter<'_>) -> std::fmt::Result {
+        write!(f, "at_sim_end of {} failed", self.0)
+    }
+}
+impl std::error::Error for EndFailure {}
+
 struct Scripted {
+    end_fail: bool,
     name: String,
     stages: usize,
     stack: usize,
@@ -108,6 +118,12 @@ impl Scripted {
                 "send" => send(mk(c["size"].as_u64().unwrap(), c["eat"].as_u64().unwrap()), gate_name(c["g"].as_str().unwrap())),
                 "sendin" => send_in(mk(c["size"].as_u64().unwrap(), c["eat"].as_u64().unwrap()), gate_name(c["g"].as_str().unwrap()), d),
                 "sched" => schedule_in(mk(1, c["eat"].as_u64().unwrap()), d),
+                "setcatch" => {
+                    let me = current();
+                    let mut st = me.stereotyp();
+                    st.on_panic_catch = c["d"].as_u64() == Some(1);
+                    me.set_stereotyp(st);
+                }
                 "shutdown" => current().shutdown(),
                 "restart" => current().shutdow_and_restart_in(d),
                 "panic" => panic!("scripted panic"),
@@ -130,8 +146,17 @@ impl Module for Scripted {
     fn stack(&self, mut stack: ProcessingStack) -> ProcessingStack {
         // the first element comes from the simulation-wide default stack (SimBuilder::set_stack),
         // further ones are appended by the module itself
-        for i in 1..self.stack {
-            stack.append(Pe { m: self.name.clone(), i, _life: Life::new(1) });
+        let pe = |i: usize| Pe { m: self.name.clone(), i, _life: Life::new(1) };
+        match self.stack {
+            0 | 1 => {}
+            2 => stack.append(pe(1)),
+            // a stack larger than the default one, appended in a single call
+            3 => stack.append((pe(1), pe(2))),
+            n => {
+                for i in 1..n {
+                    stack.append(pe(i));
+                }
+            }
         }
         stack
     }
@@ -153,6 +178,9 @@ impl Module for Scripted {
     }
     fn at_sim_end(&mut self) -> Result<(), RuntimeError> {
         log(json!({"o": "end", "m": self.name}));
+        if self.end_fail {
+            return Err(RuntimeError::from(EndFailure(self.name.clone())));
+        }
         Ok(())
     }
 }
@@ -210,6 +238,7 @@ pub struct NetCfg {
     pub tick_ns: u64,
     pub bytes: Vec<usize>, // index by size (1-based; index 0 unused)
     pub max_t: u64,
+    pub endfail: Vec<String>,
 }
 
 impl NetCfg {
@@ -224,6 +253,7 @@ impl NetCfg {
             tick_ns: v["tick_ns"].as_u64().unwrap(),
             bytes: std::iter::once(0).chain(v["bytes"].as_array().unwrap().iter().map(|b| b.as_u64().unwrap() as usize)).collect(),
             max_t: v["max_t"].as_u64().unwrap(),
+            endfail: v["endfail"].as_array().map(|a| a.iter().map(|x| x.as_str().unwrap().to_string()).collect()).unwrap_or_default(),
         }
     }
 }
@@ -310,6 +340,8 @@ pub fn run_scenario(cfg: &NetCfg, scripts: &Value, seed: u64) -> Outcome {
                     for x in e.iter() {
                         if let Some(p) = x.as_any().downcast_ref::<PanicError>() {
                             out.err.insert(p.path.as_str().to_string());
+                        } else if let Some(f) = x.as_any().downcast_ref::<EndFailure>() {
+                            out.err.insert(format!("end:{}", f.0));
                         } else {
                             out.err.insert(format!("?{x}"));
                         }
@@ -331,6 +363,7 @@ fn add_module(sim: &mut des::net::SimBuilder<()>, cfg: &NetCfg, scripts: &Value,
     sim.node(
         m,
         Scripted {
+            end_fail: cfg.endfail.iter().any(|x| x == m),
             name: m.to_string(),
             stages: cfg.stages[m].as_u64().unwrap_or(1) as usize,
             stack,
@@ -411,7 +444,8 @@ pub fn replay(args: &[String]) {
             fail(&format!("observation log diverges at a '{what}' entry"), json!({"index": i, "expected": exp_log.get(i), "got": out.log.get(i), "got_log": out.log}));
             return;
         }
-        let exp_err: BTreeSet<String> = v["err"].as_array().unwrap().iter().map(|x| x.as_str().unwrap().to_string()).collect();
+        let mut exp_err: BTreeSet<String> = v["err"].as_array().unwrap().iter().map(|x| x.as_str().unwrap().to_string()).collect();
+        exp_err.extend(v["endfail"].as_array().unwrap().iter().map(|x| format!("end:{}", x.as_str().unwrap())));
         if exp_err != out.err || out.result_ok != exp_err.is_empty() {
             fail("run() result: set of modules reported as panicked", json!({"expected": exp_err, "got": out.err}));
             return;
